@@ -8,10 +8,12 @@
 package main
 
 import (
+	"bytes"
 	"encoding/json"
 	"flag"
 	"fmt"
 	"os"
+	"os/exec"
 	"sort"
 	"time"
 
@@ -73,6 +75,7 @@ func main() {
 		budget = flag.Float64("budget", 0, "stop after this many seconds (0 = no limit)")
 		selftest = flag.String("selftest", "", "determinism: print event hashes of worlds to this file")
 		solo     = flag.Bool("solo", false, "C07 variant d child: world on stdin, observation log on stdout")
+		fork     = flag.Bool("fork", false, "run every world in its own fresh child process (cold properties)")
 	)
 	flag.Parse()
 	if *solo {
@@ -99,6 +102,9 @@ func main() {
 		return
 	}
 
+	if *fork {
+		os.Exit(forkBatch(*prop, *seed, *from, *n, *tier, *out, *budget))
+	}
 	start := time.Now()
 	st := NewStats()
 	res := &BatchResult{Prop: *prop, Seed: *seed, From: *from, N: *n, Stats: st, Race: simrt.RaceEnabled}
@@ -178,6 +184,80 @@ func main() {
 	} else if err := os.WriteFile(*out, b, 0o644); err != nil {
 		fatal(2, "%v", err)
 	}
+}
+
+// forkBatch runs worlds from..from+n-1 each in a fresh child process (the worker
+// binary itself) and merges the children's results.  A child that dies with a
+// race report (exit 66) ends the batch: its stderr is passed on after a BEGIN
+// line and the parent exits 66 too.
+func forkBatch(prop string, seed uint64, from, n int, tier, out string, budget float64) int {
+	self, err := os.Executable()
+	if err != nil {
+		fatal(2, "%v", err)
+	}
+	start := time.Now()
+	total := &BatchResult{Prop: prop, Seed: seed, From: from, N: n, Stats: NewStats(), Race: simrt.RaceEnabled, SimCount: map[string]int64{}}
+	hit := map[string]bool{}
+	for i := from; i < from+n; i++ {
+		if budget > 0 && time.Since(start).Seconds() > budget {
+			break
+		}
+		cmd := exec.Command(self, "-prop", prop, "-seed", fmt.Sprint(seed), "-from", fmt.Sprint(i), "-n", "1", "-tier", tier)
+		var ob, eb bytes.Buffer
+		cmd.Stdout, cmd.Stderr = &ob, &eb
+		if err := cmd.Run(); err != nil {
+			if ee, ok := err.(*exec.ExitError); ok && ee.ExitCode() == 66 {
+				fmt.Fprintf(os.Stderr, "BEGIN %d\n", i)
+				os.Stderr.Write(eb.Bytes())
+				return 66
+			}
+			fmt.Fprintf(os.Stderr, "child for world %d: %v\n%s", i, err, eb.String())
+			return 2
+		}
+		var r BatchResult
+		if err := json.Unmarshal(ob.Bytes(), &r); err != nil {
+			fmt.Fprintf(os.Stderr, "child for world %d: unreadable result: %v\n", i, err)
+			return 2
+		}
+		t, c := total.Stats, r.Stats
+		t.Worlds += c.Worlds
+		t.Nontrivial += c.Nontrivial
+		t.Events += c.Events
+		t.Rechecks += c.Rechecks
+		for k, v := range c.Counters {
+			t.Counters[k] += v
+		}
+		for k, v := range c.Inconclusive {
+			t.Inconclusive[k] += v
+		}
+		t.DistinctList = append(t.DistinctList, c.DistinctList...)
+		t.InterleaveList = append(t.InterleaveList, c.InterleaveList...)
+		if len(t.Samples) < 3 {
+			t.Samples = append(t.Samples, c.Samples...)
+		}
+		for k, v := range r.SimCount {
+			total.SimCount[k] += v
+		}
+		for _, s := range r.HitSites {
+			hit[s] = true
+		}
+		total.Sites = r.Sites
+		total.Found = append(total.Found, r.Found...)
+		total.Done += r.Done
+	}
+	for s := range hit {
+		total.HitSites = append(total.HitSites, s)
+	}
+	sort.Strings(total.HitSites)
+	total.SitesHit = len(total.HitSites)
+	total.WallS = time.Since(start).Seconds()
+	b, _ := json.Marshal(total)
+	if out == "" {
+		fmt.Println(string(b))
+	} else if err := os.WriteFile(out, b, 0o644); err != nil {
+		fatal(2, "%v", err)
+	}
+	return 0
 }
 
 // ---- replay ---------------------------------------------------------------------------
